@@ -1214,6 +1214,8 @@ impl Lock {
 
     #[inline]
     pub(crate) fn force_owned(&mut self) {
+        #[cfg(feature = "verif-hooks")]
+        crate::verif::lock_event("forced", self.fid, "");
         self.owned = true;
     }
 
@@ -1230,9 +1232,15 @@ impl Lock {
         match result {
             Ok(_) => {
                 self.owned = true;
+                #[cfg(feature = "verif-hooks")]
+                crate::verif::lock_event("acquired", self.fid, "try");
                 Ok(true)
             }
-            Err(Errno::EACCES) | Err(Errno::EAGAIN) => Ok(false),
+            Err(Errno::EACCES) | Err(Errno::EAGAIN) => {
+                #[cfg(feature = "verif-hooks")]
+                crate::verif::lock_event("busy", self.fid, "");
+                Ok(false)
+            }
             Err(e) => Err(RedoError::opaque_error(e)),
         }
     }
@@ -1251,12 +1259,16 @@ impl Lock {
         )
         .map_err(RedoError::opaque_error)?;
         self.owned = true;
+        #[cfg(feature = "verif-hooks")]
+        crate::verif::lock_event("acquired", self.fid, "wait");
         Ok(())
     }
 
     /// Release the lock, which we must currently own.
     pub fn unlock(&mut self) -> Result<(), RedoError> {
         assert!(self.owned, "can't unlock {} - we don't own it", self.fid);
+        #[cfg(feature = "verif-hooks")]
+        crate::verif::lock_event("release", self.fid, "");
         fcntl::fcntl(
             self.manager.file.as_raw_fd(),
             FcntlArg::F_SETLK(
